@@ -7,3 +7,24 @@ package tls
 func VerifWriteRecord(c *Conn, typ uint8, data []byte) (int, error) {
 	return c.WriteRecord(recordType(typ), data)
 }
+
+// VerifSendKeyUpdate sends a TLS 1.3 KeyUpdate message (update_requested or
+// not) and then switches this side's write traffic secret, under one hold of
+// c.out, as the sender of a KeyUpdate must.
+func VerifSendKeyUpdate(c *Conn, requestUpdate bool) error {
+	c.out.Lock()
+	defer c.out.Unlock()
+	if c.vers != VersionTLS13 {
+		return nil
+	}
+	cipherSuite := cipherSuiteTLS13ByID(c.cipherSuite)
+	if cipherSuite == nil {
+		return AlertInternalError
+	}
+	msg := &keyUpdateMsg{updateRequested: requestUpdate}
+	if _, err := c.writeRecordLocked(recordTypeHandshake, msg.marshal()); err != nil {
+		return err
+	}
+	c.out.setTrafficSecret(cipherSuite, cipherSuite.nextTrafficSecret(c.out.trafficSecret))
+	return nil
+}
